@@ -22,11 +22,30 @@ RULE = ('block op sequences (validate/get/set/reset/dump) over sequential blocks
 
 
 # ------------------------------------------------------------------ real code runners
+_SHARED_INIT = {}     # an application's "factory defaults": ONE list object per distinct initial content, reused for every block
+
+
+def shared_init(values):
+    """the list object handed to every sequential block that starts from these values.  A block must own its cells: whatever
+    is written into one block must never show up in this list (or in another block built from it)."""
+    key = tuple(values)
+    if key not in _SHARED_INIT:
+        if len(_SHARED_INIT) > 4000:
+            _SHARED_INIT.clear()
+        _SHARED_INIT[key] = list(values)
+    return _SHARED_INIT[key]
+
+
+def shared_init_intact():
+    """[] or the initial contents whose shared list no longer holds them (a block wrote through to it)"""
+    return [list(k) for k, v in _SHARED_INIT.items() if list(k) != v]
+
+
 def mk_block(desc):
     if desc['kind'] == 'default':
         return ModbusSequentialDataBlock.create()
     if desc['kind'] == 'seq':
-        return ModbusSequentialDataBlock(desc['address'], list(desc['values']))
+        return ModbusSequentialDataBlock(desc['address'], shared_init(desc['values']))
     return ModbusSparseDataBlock(dict((k, v) for k, v in desc['items']))
 
 
@@ -137,6 +156,12 @@ def check_block_cases(ctx, rep, cases):
         rep.case(case, nontrivial=accepted, tag='block-' + desc['kind'])
         rep.sample(case, cap=3)
         vm = run_block_ops.validate_mismatch
+        broken_init = shared_init_intact()
+        if broken_init:
+            rep.violation('a sequential block shares storage with the list it was built from: writing to the block changed the '
+                          'caller\'s list (and every other block built from it)', case, initial_values=broken_init[0][:20])
+            _SHARED_INIT.clear()
+            continue
         rep.compare(case, {'outs': outs, 'dump': dump}, {'outs': ans['outs'], 'dump': ans['dump']}, 'block ops vs Model.Store')
         if vm is not None:
             rep.violation('validate(address, count) does not accept exactly the ranges whose cells are all populated (the block\'s own '
